@@ -430,3 +430,94 @@ def r4(ctx):
     ok = len(oks) == 1 and match(core(init_value(bf, oks[0][3][0])), Call('metrics::_f1', ('field', Call('_count_tp_fp_fn', ('arg', 1, ANY), ('arg', 2, ANY)), 0),
                                                                           ('field', Call('_count_tp_fp_fn', ANY, ANY), 1), ('field', Call('_count_tp_fp_fn', ANY, ANY), 2), ('arg', 3, ANY)))
     ctx.require(ok, bf, 'binary-f1', 'binary_f1 = _f1(counts(predictions, targets), beta)', None)
+
+
+@rule('C13', 'R-C13-5', 'T4 GUARD (decision table of the evaluated operations, word attribution bound)',
+      'the whitespace operation sets keep exactly Insert|Delete in InsertionsAndDeletions mode, Insert in Insertions mode and '
+      'Delete in Deletions mode (Keep is never an evaluated operation); _group_words attributes an operation at index i to the '
+      'first word whose end is >= i (the whitespace after a word belongs to that word)')
+def r5(ctx):
+    from analysis.alts import ret_alts_paths, eval_conds
+    from rules.common import closures_in
+    b = ctx.body(M + '_whitespace_ops_to_set')
+    ops_adt = ctx.facts.adts.get('whitespace::Operation')
+    mode_adt = ctx.facts.adts.get('metrics::WhitespaceCorrectionMode')
+    if not ops_adt or not mode_adt:
+        raise AnchorMissing('Operation / WhitespaceCorrectionMode enums')
+    ops = [v['name'] for v in ops_adt['variants']]
+    modes = [v['name'] for v in mode_adt['variants']]
+    is_op = lambda c: c[0] == 'field' and c[2] == 1 and c[1][0] == 'arg'
+    is_mode = lambda c: c[0] in ('upvar', 'arg') and c[0] == 'upvar'
+    filters = []
+    for c in closures_in(ctx, b, recursive=False):
+        if c.kind != 'Closure':
+            continue
+        al = ret_alts_paths(ctx.facts, c)
+        if al is None:
+            raise AnchorMissing('paths of the filter closure')
+        vals = [peel(a.value) for a in al]
+        isopt = any(v[0] == 'agg' and 'Option::' in v[2] for v in vals)
+        isbool = all((v[0] == 'bin' and v[1] in ('Eq', 'Ne')) or (v[0] == 'const' and v[1] in ('const true', 'const false', 'true', 'false')) or
+                     (v[0] == 'call' and v[1].rsplit('::', 1)[-1] in ('eq', 'ne')) for v in vals)
+        if isopt or isbool:
+            filters.append((c, al, isopt))
+    if not filters:
+        raise AnchorMissing('the filter / filter_map closure of _whitespace_ops_to_set')
+    from analysis.alts import Alt
+    table = {}
+    for m in modes:
+        for o in ops:
+            assign = [(is_op, o), (is_mode, m)]
+            keep = True
+            for c, al, isopt in filters:
+                outcomes = set()
+                for a in al:
+                    if any(len(n) == 0 for t, n in a.variants):
+                        continue
+                    r = eval_conds(a, assign)
+                    if r is None:
+                        raise AnchorMissing('condition of the operation filter not understood: %r' % a)
+                    if not r:
+                        continue
+                    v = peel(a.value)
+                    if isopt:
+                        outcomes.add(v[0] == 'agg' and v[2].endswith('Option::Some'))
+                    elif v[0] == 'const':
+                        outcomes.add('true' in v[1])
+                    else:
+                        r2 = eval_conds(Alt(None, (), [(v, True)]), assign)
+                        if r2 is None:
+                            raise AnchorMissing('filter predicate not understood: %s' % show_in(c, v))
+                        outcomes.add(r2)
+                if len(outcomes) != 1:
+                    raise AnchorMissing('filter outcome for (%s, %s) is not determined: %s' % (o, m, outcomes))
+                keep = keep and list(outcomes)[0]
+            table[(o, m)] = keep
+    want = {(o, m): ((o in ('Insert', 'Delete') and m == 'InsertionsAndDeletions') or (o == 'Insert' and m == 'Insertions') or (o == 'Delete' and m == 'Deletions'))
+            for o in ops for m in modes}
+    bad = sorted(k for k in want if table.get(k) != want[k])
+    ctx.require(not bad, b, 'mode-table', 'evaluated operations per mode: IAD -> Insert|Delete, Insertions -> Insert, Deletions -> Delete (%d combinations decided)' % len(table),
+                'operation %s in mode %s is %s the evaluated set: counts no longer equal the set comparison of whitespace operations' % (
+                    bad[0][0] if bad else '', bad[0][1] if bad else '', 'kept in' if bad and table.get(bad[0]) else 'dropped from'))
+    # word attribution bound in _group_words
+    g = ctx.body(M + '_group_words')
+    cmps = []
+    for bb_ in [g] + closures_in(ctx, g):
+        for gd in __import__('analysis.sym', fromlist=['edge_guards']).edge_guards(bb_):
+            t, pol = gd.atom()
+            c = core(t) if pol is not None else None
+            if c is None or c[0] != 'bin' or c[1] not in ('Lt', 'Le', 'Gt', 'Ge'):
+                continue
+            for x, y, op in ((c[2], c[3], c[1]), (c[3], c[2], {'Lt': 'Gt', 'Le': 'Ge', 'Gt': 'Lt', 'Ge': 'Le'}[c[1]])):
+                # y = end of a word: component 1 of an element of the word-boundary list
+                if y[0] == 'field' and y[2] == 1 and (y[1][0] == 'index' or 'item' in str(y[1]) or y[1][0] in ('arg', 'field')) and x[0] != 'const' and \
+                        not (x[0] == 'field' and x[2] in (0, 1) and x[1][0] == 'index'):
+                    cmps.append((bb_, gd, op, x, y))
+    cmps = [c_ for c_ in cmps if 'usize, usize' in ''.join(l['ty'] for l in c_[0].locals if '(usize, usize)' in l['ty'])[:20] or True]
+    if not cmps:
+        raise AnchorMissing('the comparison of an operation index with a word end in _group_words')
+    for bb_, gd, op, x, y in cmps:
+        ctx.require(op in ('Le', 'Gt'), bb_, 'word-end-inclusive', 'operation index is compared with the word end inclusively (i <= end / i > end), line %d' % bb_.blocks[gd.block].term.span['line'],
+                    'the operation index is compared with the word end by `%s` (line %d): index == end is the whitespace after the word, it must still belong to that word '
+                    '(a deleted whitespace is otherwise attributed to the next word and the closing assertion fires)' % (op, bb_.blocks[gd.block].term.span['line']),
+                    bb_.blocks[gd.block].term.span)
